@@ -3,7 +3,7 @@
 
   tools/seeded.py import <worktree> <name>   copy patch.diff / demo.py / meta.json
                                              into seeded/<name>/ and confirm them
-  tools/seeded.py run [name ...] [--tier T] [--all-checks]
+  tools/seeded.py run [name ...] [--tier T] [--all-checks] [--check Cxx]
                                              run the property's check (or all)
                                              against each kept change
 
@@ -93,7 +93,7 @@ def do_import(wt, name):
     return ok
 
 
-def do_run(names, tier='quick', all_checks=False, runs=None):
+def do_run(names, tier='quick', all_checks=False, runs=None, only=None):
     dirs = sorted(glob.glob(os.path.join(ROOT, 'seeded', '*', 'meta.json')))
     for mpath in dirs:
         d = os.path.dirname(mpath)
@@ -108,6 +108,8 @@ def do_run(names, tier='quick', all_checks=False, runs=None):
         if all_checks:
             m = json.load(open(os.path.join(ROOT, 'MANIFEST.json')))
             props = [c['property_id'] for c in m['checks']]
+        if only:
+            props = list(only)
         try:
             tmp, r = scratch(os.path.join(d, 'patch.diff'))
         except RuntimeError as e:
@@ -144,6 +146,7 @@ def main():
         tier = 'quick'
         allc = '--all-checks' in a
         runs = None
+        only = []
         names = []
         i = 1
         while i < len(a):
@@ -155,10 +158,13 @@ def main():
                 i += 2
             elif a[i] == '--all-checks':
                 i += 1
+            elif a[i] == '--check':       # run this check instead
+                only.append(a[i + 1])
+                i += 2
             else:
                 names.append(a[i])
                 i += 1
-        do_run(names, tier, allc, runs)
+        do_run(names, tier, allc, runs, only)
         return 0
     print(__doc__)
     return 2
